@@ -9,6 +9,7 @@ From QSX Require Import IO.Num IO.Equiv IO.Bounds IO.Bas IO.Sol.
 From QSX Require Import Store.Spec Store.Api.
 From QSX Require Import Fac.FTUpdate.
 From QSX Require Import Store.Matrix Store.L2.
+From QSX Require Import IO.LpWrite IO.LpRead IO.MpsWrite IO.LpRoundtrip IO.LpNames.
 (* one Require line per area may be added below *)
 
 Extraction Language OCaml.
@@ -30,5 +31,6 @@ Extraction "model.ml"
   api_init api_edit api_solve api_load_basis api_exact_cert
   lib_optimalstatus lib_dualstatus loaded_basis lp_bounds_ok norm_stat spike usolve usolve_t bpost update update_spike struct_ok repr_same_u sparsify norm_line sort_sparse
   l2_step_c l2_load_c l2_copy_c empty_lstore lwf_check wf_check abs col_ents
+  write_lp file_bytes read_lp_res split_lines to_nlp write_mps wf_lpb fix_names default_objname
   (* add names below, one line per area *)
   .
